@@ -42,7 +42,7 @@ class Spec:
     def __init__(self, name, params=(), ret=None, mode='pure', attrs=None, calls=None,
                  consts=None, strings=None, state=None, self_name='self', errs=None,
                  fuel=None, binder_prefix='', pre=None, lockstep=None, inplace=None, binops=None,
-                 eattrs=None, methods=None, types=None, skip=None, conv=None, presets=None, stmt_methods=None):
+                 eattrs=None, methods=None, types=None, skip=None, conv=None, presets=None, stmt_methods=None, retwrap=None):
         self.name = name              # Coq name of the definition
         self.params = list(params)    # [(pyname, type)] explicit parameters (besides self)
         self.ret = ret
@@ -64,6 +64,7 @@ class Spec:
         self.types = types or {}
         self.skip = skip or []
         self.conv = conv or {}
+        self.retwrap = retwrap
         self.stmt_methods = stmt_methods or {}  # dotted callee 'X.m' -> (attr X, fmt with {g} (getter) and {a} (argument))
         self.presets = presets or {}  # free (closure) names: pyname -> (coq term, type)          # ast.unparse texts of statements that are pinned elsewhere and skipped
 
@@ -333,6 +334,17 @@ class Tr:
             if ta == 'Z' and tb == 'Z':
                 return ('(zceil_div %s %s)' % (a, b), 'Z')
             raise TErr('math.ceil of a non-integer quotient')
+        if d in ('math.log', 'np.log', 'math.exp', 'np.exp', 'math.log1p', 'math.expm1', 'math.sqrt', 'np.sqrt') and len(n.args) == 1 and not n.keywords:
+            a, ta = self.ex(n.args[0])
+            a = self.coerce(a, ta, 'T')
+            fmt = {'log': '(nln %s)', 'exp': '(nexp %s)', 'log1p': '(nln (nadd n1 %s))', 'expm1': '(nsub (nexp %s) n1)', 'sqrt': '(nsqrt %s)'}[d.split('.')[1]]
+            return (fmt % a, 'T')
+        if d == 'special.binom' and len(n.args) == 2:
+            a, ta = self.ex(n.args[0])
+            b, tb = self.ex(n.args[1])
+            if ta == 'Z' and tb == 'Z':
+                return ('(nbinom %s %s)' % (a, b), 'T')
+            raise TErr('special.binom on non-integers')
         if d in ('min', 'max') and len(n.args) == 2:
             a, ta = self.ex(n.args[0])
             b, tb = self.ex(n.args[1])
@@ -537,6 +549,12 @@ class Tr:
         raise TErr('statement node ' + type(st).__name__ + ': ' + ast.unparse(st)[:80])
 
     def _ret_coerce(self, v, t):
+        rw = getattr(self.spec, 'retwrap', None)
+        if rw:
+            key = t if not isinstance(t, tuple) else str(t)
+            if key in rw:
+                return rw[key].format(v=v)
+            raise TErr('return of type %s has no wrapper' % (t,))
         want = self.spec.ret
         if want is None or want == t:
             return v
@@ -946,6 +964,9 @@ def pin_function(path, qual, expected_src, coq_text):
     textually (ast-normalised) equal to `expected_src`; then the fixed Coq text is emitted."""
     tree = ast.parse(open(path).read())
     fn = find_def(tree, qual)
+    for sub in ast.walk(fn):
+        if isinstance(sub, (ast.FunctionDef, ast.ClassDef)) and sub is not fn:
+            sub.body = strip_doc(sub.body) or [ast.Pass()]
     got = ast.unparse(ast.Module(body=strip_doc(fn.body), type_ignores=[]))
     want = ast.unparse(ast.parse(expected_src))
     if got != want:
